@@ -340,7 +340,7 @@ def compare_model(ctx, model_ok, jobs, src):
 
 
 def run(ctx):
-    st = vlib.prepare(ctx, PROP_V, need_translators=('tr_sweep',))
+    st = vlib.prepare(ctx, PROP_V, need_translators=('tr_sweep', 'tr_deleg'))
     quick = ctx.tier == 'quick'
     ctx.cov['rule'] = ('Hermitian Hamiltonians from random couplings (hopping + h.c., density-density, fields; real and complex) for every operator family x symmetry, '
                        'N = 2..6, initial states of every admissible charge, methods 1site / 2site / switching, precompute on/off, H single / scaled / sum of MPOs / with a '
@@ -369,7 +369,7 @@ def run(ctx):
 
 
 def replay(ctx, path):
-    st = vlib.prepare(ctx, PROP_V, need_translators=('tr_sweep',))
+    st = vlib.prepare(ctx, PROP_V, need_translators=('tr_sweep', 'tr_deleg'))
     rec = json.load(open(path))
     jobs, src = [], []
     for v in rec.get('violations', []):
